@@ -293,6 +293,15 @@ pub fn run(req: &RunRequest) -> Value {
             cluster.nodes[n].in_ring = false;
             cluster.nodes[n].up = false;
         }
+        // One more node that is no ring member yet: it may join in the very refresh in which
+        // another node is seen gone (a node replacement: the node count does not drop).
+        {
+            let i = cluster.nodes.len();
+            let n = cluster.add_node(&format!("dc{}", 1 + i % plan.dcs), "r1", plan.shards, vec![(i as i64) * 1000 - 2500]);
+            cluster.nodes[n].msb_ignore = 12;
+            cluster.nodes[n].in_ring = false;
+            cluster.nodes[n].up = false;
+        }
         client::standard_catalog(&mut cluster, Strategy::Simple(1), false);
         cluster.keyspaces.push(KeyspaceDef {
             name: "kst".into(),
@@ -422,9 +431,17 @@ async fn main(plan: Plan) -> Outcome {
             let mut s = w.script.take().unwrap();
             let sc = s.as_any().downcast_mut::<C15Script>().unwrap();
             let k = tape::choose("c15:mig_tablet", sc.layout.len() as u64) as usize;
-            match tape::choose("c15:mig_kind", 5) {
+            match tape::choose("c15:mig_kind", 6) {
                 0 => {
                     sc.layout[k].replicas = draw_replicas(&plan);
+                }
+                5 if plan.shards >= 2 && !sc.layout[k].replicas.is_empty() => {
+                    // Intra-node migration: same replica nodes in the same order, ONE of
+                    // them now holds the tablet on another shard.
+                    let r = tape::choose("c15:mig_replica", sc.layout[k].replicas.len() as u64) as usize;
+                    let step = 1 + tape::choose("c15:mig_shard_step", plan.shards as u64 - 1) as u32;
+                    sc.layout[k].replicas[r].1 = (sc.layout[k].replicas[r].1 + step) % plan.shards;
+                    w.probe("tablet_moved_to_another_shard_of_its_node");
                 }
                 1 if sc.layout[k].last.saturating_sub(sc.layout[k].first_excl) > 4 => {
                     let t = sc.layout[k].clone();
@@ -624,6 +641,15 @@ async fn main(plan: Plan) -> Outcome {
             w.crash_node(victim);
             let ip = w.cluster.nodes[victim].ip;
             w.broadcast_event("TOPOLOGY_CHANGE", crate::wire::body_event_topology("REMOVED_NODE", ip, 9042));
+            // 1 in 2: its replacement joins at the same moment.
+            if tape::chance("c15:replacement_joins", 1, 2) {
+                let repl = w.cluster.nodes.len() - 1;
+                w.cluster.nodes[repl].in_ring = true;
+                w.cluster.nodes[repl].up = true;
+                let ip = w.cluster.nodes[repl].ip;
+                w.broadcast_event("TOPOLOGY_CHANGE", crate::wire::body_event_topology("NEW_NODE", ip, 9042));
+                w.probe("node_replaced");
+            }
         }
         removed = Some(victim);
         world::sleep_ns(15 * SEC).await;
